@@ -4,6 +4,7 @@ package harness
 
 import (
 	"bytes"
+	"encoding/json"
 	"fmt"
 	"os"
 	"runtime"
@@ -166,6 +167,10 @@ type gateRun struct {
 }
 
 // runGateSchedule executes the scenario under one schedule (choice index per step).
+// gateReplayTrace, when set, makes runGateSchedule follow a recorded introduction order by party
+// name (waiting up to 5 s for each party to reach its gate) instead of choice indexes.
+var gateReplayTrace []string
+
 func runGateSchedule(sc gateScenario, schedule []int, maxSteps int, wrap bool) (res gateRun) {
 	dir, err := os.MkdirTemp(os.Getenv("VERIF_SCRATCH"), "gate.")
 	if err != nil {
@@ -238,11 +243,21 @@ func runGateSchedule(sc gateScenario, schedule []int, maxSteps int, wrap bool) (
 			return
 		}
 		names := g.settle(4 * time.Millisecond)
+		if gateReplayTrace != nil {
+			if step >= len(gateReplayTrace) {
+				break
+			}
+			if missing := g.waitFor([]string{gateReplayTrace[step]}, 5*time.Second); missing != "" {
+				res.harness = fmt.Sprintf("replay: %s did not reach its gate at step %d (the recorded order is not reproducible in this run; trace so far %v)", missing, step, res.trace)
+				return
+			}
+			names = []string{gateReplayTrace[step]}
+		}
 		if len(names) == 0 {
 			break // all batches introduced and no persist or merge pending
 		}
 		choice := 0
-		if step < len(schedule) {
+		if step < len(schedule) && gateReplayTrace == nil {
 			choice = schedule[step]
 		}
 		if wrap {
@@ -428,4 +443,34 @@ func TestC04Gate(t *testing.T) {
 			ev.Class("gate-scenarios-enumerated-exhaustively", 1)
 		}
 	})
+}
+
+// TestC04Replay re-runs a saved gate-mode case (VERIF_REPLAY=<file>) by its recorded introduction order.
+func TestC04Replay(t *testing.T) {
+	path := os.Getenv("VERIF_REPLAY")
+	if path == "" {
+		t.Skip("no VERIF_REPLAY")
+	}
+	raw, err := os.ReadFile(path)
+	if err != nil {
+		t.Fatalf("harness: %v", err)
+	}
+	var c struct {
+		Scenario gateScenario `json:"scenario"`
+		Trace    []string     `json:"trace"`
+	}
+	if err := json.Unmarshal(raw, &c); err != nil {
+		t.Fatalf("harness: %v", err)
+	}
+	gateReplayTrace = c.Trace
+	defer func() { gateReplayTrace = nil }()
+	for i := 0; i < 5; i++ {
+		res := runGateSchedule(c.Scenario, nil, len(c.Trace), false)
+		if res.msg != "" {
+			t.Fatalf("scenario %s: %s", canonJSON(c.Scenario), res.msg)
+		}
+		if res.harness != "" {
+			t.Logf("attempt %d: %s", i, res.harness)
+		}
+	}
 }
